@@ -21,8 +21,10 @@ def C17():
                    "set, the blocker set (== minimal non-faces), num_simplices, complex_simplex_range, num_connected_components, "
                    "num_vertices/num_edges/num_blockers and link_condition of every edge are compared with the reference complex, and for "
                    "contractions the Betti numbers over Z_2 and Z_3 and the Euler characteristic before/after. Thorough adds call variants, "
-                   "merge validation and depth-bounded exploration over 6 handles. Histories after which the implementation has diverged "
-                   "from the reference (the recorded star-removal finding) are reported once and not extended. Larger universes are not covered"),
+                   "merge validation and depth-bounded exploration over 6 handles. A history after which the implementation has diverged "
+                   "from the reference is reported once and not extended, except when the divergence is exactly the recorded "
+                   "star-removal finding: then the exploration continues from the reference state on an object rebuilt from it. "
+                   "Larger universes are not covered"),
     "level_note": ("trusted: the 100-line bit-mask reference complex, ref::persistence (column reduction over Z_p), the canonical key "
                    "(model state + skeleton, degree_, counters and blocker_map_ read with -fno-access-control; validated by merge "
                    "validation in the thorough tier), g++/ASan/UBSan"),
@@ -47,7 +49,9 @@ def C17():
         "complex whose link condition holds in the reference model (otherwise the code first deletes blockers and the property gives that "
         "no abstract meaning); add_blocker only on a simplex that no blocker strictly contains or on an existing blocker (no-op)",
         "small scope: at most 5 vertex handles for the closure, 6 for the depth-bounded layer; Skeleton_blocker_simple_traits only; no visitor",
-        "a history after which implementation and reference differ is reported and not extended",
+        "a history after which implementation and reference differ is reported and not extended; histories whose only divergence is the "
+        "recorded star-removal footprint (lost simplices == cofaces of blocker-minus-removed, nothing gained) continue from the reference "
+        "state on a rebuilt object (n vertices, isolated-vertex removals, add_edge_without_blockers, add_blocker)",
     ],
     "runs": {
         "quick": [
